@@ -159,9 +159,65 @@ DONE:
 		grammarToken = grammar.R_INTEGER
 	}
 
+	if !isNumericLiteralLexicalForm(uncommitted) {
+		// such as a sign or an exponent without digits ("-", "+e5", ".e1")
+		return nil, grammarToken.Err(r.newOffsetError(
+			cursorioutil.UnexpectedRuneError{
+				Rune: uncommitted[len(uncommitted)-1].Rune,
+			},
+			uncommitted[:len(uncommitted)-1].AsDecodedRunes(),
+			uncommitted[len(uncommitted)-1].AsDecodedRunes(),
+		))
+	}
+
 	return &tokenNumericLiteral{
 		Offsets:     r.commitForTextOffsetRange(uncommitted.AsDecodedRunes()),
 		GrammarRule: grammarToken,
 		Decoded:     uncommitted.AsDecodedRunes().String(),
 	}, nil
+}
+
+// isNumericLiteralLexicalForm checks the scanned runes against INTEGER | DECIMAL | DOUBLE.
+func isNumericLiteralLexicalForm(runes cursorio.DecodedRuneList) bool {
+	i := 0
+
+	digits := func() int {
+		n := 0
+
+		for i < len(runes) && '0' <= runes[i].Rune && runes[i].Rune <= '9' {
+			i++
+			n++
+		}
+
+		return n
+	}
+
+	if i < len(runes) && (runes[i].Rune == '+' || runes[i].Rune == '-') {
+		i++
+	}
+
+	intDigits, fracDigits := digits(), 0
+	hasDot := i < len(runes) && runes[i].Rune == '.'
+
+	if hasDot {
+		i++
+		fracDigits = digits()
+	}
+
+	if i < len(runes) && (runes[i].Rune == 'e' || runes[i].Rune == 'E') {
+		i++
+
+		if i < len(runes) && (runes[i].Rune == '+' || runes[i].Rune == '-') {
+			i++
+		}
+
+		// DOUBLE: [0-9]+ '.' [0-9]* EXPONENT | '.' [0-9]+ EXPONENT | [0-9]+ EXPONENT
+		return digits() > 0 && i == len(runes) && (intDigits > 0 || fracDigits > 0)
+	} else if hasDot {
+		// DECIMAL: [0-9]* '.' [0-9]+
+		return fracDigits > 0 && i == len(runes)
+	}
+
+	// INTEGER: [0-9]+
+	return intDigits > 0 && i == len(runes)
 }
